@@ -71,6 +71,18 @@ def gen_config(rng, tier, flavor="db"):
         "refit": rng.random() < 0.2,
         "ladder_reversed": rng.random() < 0.3,
     }
+    if flavor == "db" and rng.random() < 0.02:
+        # tiny shapes for the exact one-sweep kernel (see check_mutation_sweep_kernel)
+        cfg["ploidy"] = 2
+        cfg["n_alleles"] = rng.choice([[2], [2, 2], [3], [2, 2]])
+        cfg["n_reads"] = rng.choice([0, 1, 2, 3])
+        cfg["temperatures"] = [rng.choice([1.0, 1.0, 0.5, 0.1])]
+        cfg["sweep_kernel"] = True
+        cfg["long_locus"] = False
+        cfg["alpha_beta"] = [1.0, 3.0]
+        cfg["n_intervals"] = None
+        cfg["temperatures"] = sorted(set(cfg["temperatures"] + [1.0]))
+        return cfg
     cfg["alpha_beta"] = rng.choice([[1.0, 3.0], [1.0, 3.0], [1.0, 1.0], [2.0, 2.0], [0.5, 0.5]])
     if flavor == "db" and rng.random() < 0.06:
         # rare shapes: haploid / octoploid, longer loci (cheap settings otherwise)
@@ -904,6 +916,92 @@ class AssembleSim:
                           genotype=a["genotype"], rearranged=y)
             self.ctx.counters.inc("cached_calls_checked")
         return llk, cache
+
+
+def check_mutation_sweep_kernel(ctx, cfg):
+    """Tiny instances only (ploidy 2, one or two bi-allelic SNVs): the exact kernel of ONE mutation sweep
+    (mutation.compound_step: shuffled (h, j) sub-steps) over unordered genotypes is extracted by scripting
+    the shuffle and every allele draw through the seams; the tempered posterior must be stationary under it."""
+    import itertools
+    m = bootstrap()
+    np = m["np"]
+    sim = AssembleSim(ctx, cfg, checks=())
+    reads, counts = sim.reads, sim.counts
+    if len(reads) == 0:
+        reads = np.full((1, len(cfg["n_alleles"]), max(cfg["n_alleles"])), np.nan)
+        counts = None
+    reads_l, counts_l = sim.lists(reads, counts)
+    pl = cfg["ploidy"]
+    n_alleles = cfg["n_alleles"]
+    n_pos = len(n_alleles)
+    T = float(cfg["temperatures"][0])
+    F = float(cfg["inbreeding"])
+    luh = float(np.log(np.array(n_alleles, dtype=np.int8)).sum())  # as the sampler computes it (float16 artefact included)
+    haps = list(itertools.product(*[range(a) for a in n_alleles]))
+    states = list(itertools.combinations_with_replacement(haps, pl))
+    def lpi(g):
+        rows = [list(h) for h in g]
+        return T * (ref.read_llk(reads_l, counts_l, rows) + ref.lprior_assemble(rows, luh, F))
+    lp = [lpi(g) for g in states]
+    z = ref.log_sum_exp(lp)
+    pi = {g: math.exp(l - z) for g, l in zip(states, lp)}
+    n_sub = pl * n_pos
+    orders = list(itertools.product(*[range(i + 1) for i in range(n_sub - 1, 0, -1)])) or [()]
+    max_a = max(n_alleles)
+    K = {g: {} for g in states}
+    with Seams() as seams:
+        sim.install(seams)
+        sim.in_probe += 1
+        try:
+            for g in states:
+                for fy in orders:
+                    for ch in itertools.product(range(max_a), repeat=n_sub):
+                        x = np.array(g, dtype=np.int8)
+                        prob = [1.0 / len(orders)]
+                        k = [0]
+                        dead = [False]
+
+                        def probe(vec, _ch=ch, _prob=prob, _k=k, _dead=dead):
+                            i = _ch[_k[0]] if _k[0] < len(_ch) else 0
+                            _k[0] += 1
+                            if i >= len(vec):
+                                _dead[0] = True
+                                return 0
+                            _prob[0] *= float(vec[i])
+                            return i
+
+                        sim.rng.probe = probe
+                        sim.rng.int_script = list(fy)
+                        try:
+                            sim.real["mut_compound"](genotype=x, reads=reads, llk=float(sim.real["log_likelihood"](reads, x, read_counts=counts)),
+                                                     n_alleles=np.array(n_alleles, dtype=np.int8), log_unique_haplotypes=luh, inbreeding=F, temp=T,
+                                                     read_counts=counts, cache=None)
+                        finally:
+                            sim.rng.probe = None
+                            sim.rng.int_script = None
+                        if k[0] != n_sub:
+                            raise HarnessError("mutation.compound_step made %d draws for %d sub-steps: the sweep kernel cannot be extracted" % (k[0], n_sub))
+                        if dead[0]:
+                            continue  # a draw index beyond that site's allele count: not a path
+                        y = tuple(sorted(tuple(int(v) for v in row) for row in x))
+                        K[g][y] = K[g].get(y, 0.0) + prob[0]
+        finally:
+            sim.in_probe -= 1
+    for g in states:
+        tot = sum(K[g].values())
+        if abs(tot - 1.0) > 1e-9:
+            raise Violation("sweep_kernel_not_stochastic", "one-sweep mutation kernel row sums to %r" % tot, step=0, detail={"state": g})
+    worst, at = 0.0, None
+    for y in states:
+        inflow = sum(pi[g] * K[g].get(y, 0.0) for g in states)
+        if abs(inflow - pi[y]) > worst:
+            worst, at = abs(inflow - pi[y]), y
+    ctx.counters.inc("sweep_kernels_extracted")
+    ctx.key("mut_sweep_kernel", pl, tuple(n_alleles), T, F, cfg["data_seed"])
+    if worst > 1e-9:
+        raise Violation("sweep_not_stationary",
+                        "the tempered posterior is not stationary under one full mutation sweep: |sum_x pi(x)K(x,y) - pi(y)| = %.3g at y = %r" % (worst, at),
+                        step=0, detail={"ploidy": pl, "n_alleles": n_alleles, "temp": T, "inbreeding": F})
 
 
 def h_row(x, h):
